@@ -425,9 +425,16 @@ pub fn run(ctx: Ctx) -> ! {
     if distinct.len() < 1000 || real_checked != 5 {
         mc_core::report::machinery_failure(&format!("C08 grid too small: {} distinct preimages, {real_checked} real transactions", distinct.len()));
     }
+    let bp = crate::c08_builder::run_part(&ctx);
+    if bp.hashes_checked < bp.cases {
+        mc_core::report::machinery_failure(&format!("C08 builder pass vacuous: {} hashes checked in {} cases", bp.hashes_checked, bp.cases));
+    }
+    let evaluations = evaluations + bp.hashes_checked;
     let cov = cov! {
         "evaluations" => evaluations,
         "distinct_nontrivial" => distinct.len(),
+        "txbuilder_pass" => json!({"cases": bp.cases, "builds": bp.builds, "script_data_hashes_checked": bp.hashes_checked, "distinct_built_redeemer_encodings": bp.distinct_redeemer_orders,
+            "rule": "case = (1..4 spend redeemers, 0..2 mint redeemers, 0..2 witness datums, non-empty subset of the three languages) staged on the real StagingTransaction and built with build_conway_raw on 8 (quick) / 24 (thorough) fresh instances; body key 11 must equal Blake2b-256(witness key 5 bytes as built || witness key 4 bytes as built || own language-view encoding)"}),
         "rule" => "evaluation = one hash observation (build_for, ScriptData::hash on decoded parts, ScriptData::hash with in-memory redeemers, LanguageViews encoding, real transaction); non-trivial = distinct expected preimages redeemers|a0 ++ datums ++ views|a0 assembled by the oracle (counted by their Blake2b)",
         "samples" => samples,
         "grid" => json!({"redeemer_forms": rforms.len(), "datum_sets": dsets.len(), "language_view_options": views.len(), "language_subsets": 8, "cases": grid.len()}),
@@ -441,6 +448,7 @@ pub fn run(ctx: Ctx) -> ! {
         Level::Exploration,
         cov,
         &[
+            "txbuilder pass: the iteration order of the builder's redeemer HashMap is not owned by the harness; each case is built on several fresh instances (the statement must hold on each)",
             "redeemers are supplied in canonical encoding (definite, minimal heads, sorted keys) as DESIGN.md prescribes; what build_for does with other encodings is listed as a diagnostic",
             "cost vectors: empty, [0], i64 extremes and the real mainnet models; other lengths / values are not enumerated",
             "the oracle's formula is validated against the script_data_hash recorded in the five real transactions",
